@@ -1,0 +1,21 @@
+//go:build verif
+
+// Verification hook for /verif (fault point of property C05). Add-only, compiled only with
+// `-tags verif`. Nothing here decides anything.
+
+package state
+
+import "github.com/hashicorp/consul/agent/consul/stream"
+
+// VerifFailChangeProcessing wraps the change-event generation step that every write
+// transaction runs inside txn.Commit, before the memdb commit: while fail returns a non-nil
+// error the step fails with it, exactly as a failing processDBChanges would.
+func (s *Store) VerifFailChangeProcessing(fail func() error) {
+	next := s.db.processChanges
+	s.db.processChanges = func(tx ReadTxn, changes Changes) ([]stream.Event, error) {
+		if err := fail(); err != nil {
+			return nil, err
+		}
+		return next(tx, changes)
+	}
+}
